@@ -28,7 +28,7 @@ ASSUMPTIONS = [
     "commands no ordering rule mentions are not ranked; ties inside one rank are not judged",
     "metamorphic relation is evaluated only when the reduced patch's commands are a sub-multiset of the full patch's commands (otherwise the deleted row was not unrelated)",
 ]
-FLOORS = {"quick": {"patches_ranked": 1500, "ranked_pairs": 3000, "sort_calls": 3000, "configs_ordered": 1500, "metamorphic_pairs": 150, "several_global_rule_cases": 300, "echoed_family_cases": 300, "unordered_blocks_compared": 500, "commented_patches": 300, "commented_commands": 600, "scoped_rule_cases": 300, "ordering_lines_with_tab_before_params": 300, "mirrored_pairs_checked": 150},
+FLOORS = {"quick": {"patches_ranked": 1500, "ranked_pairs": 3000, "sort_calls": 3000, "configs_ordered": 1500, "metamorphic_pairs": 150, "several_global_rule_cases": 300, "echoed_family_cases": 300, "unordered_blocks_compared": 500, "commented_patches": 300, "commented_commands": 600, "scoped_rule_cases": 300, "ordering_lines_with_tab_before_params": 300, "mirrored_pairs_checked": 150, "cases_with_a_global_block_rule_that_has_nested_rules": 150},
           "thorough": {"patches_ranked": 60000, "ranked_pairs": 100000, "sort_calls": 100000, "configs_ordered": 60000, "metamorphic_pairs": 300, "several_global_rule_cases": 10000, "echoed_family_cases": 10000, "unordered_blocks_compared": 15000, "commented_patches": 10000, "commented_commands": 20000, "scoped_rule_cases": 10000}}
 VENDORS = c01.BLOCK_VENDORS
 KNOWN_ZERO = "C08/first-ordering-rule-has-rank-zero"
@@ -43,7 +43,8 @@ def plan(tier, seed):
     return specs
 
 
-def gen_order(rng, rules, prefix, depth=0, many_globals=False, echo=False, scoped=False):
+def gen_order(rng, rules, prefix, depth=0, many_globals=False, echo=False, scoped=False, gblock=None):
+    """gblock: a separate RNG; block rules with nested rules may then be %global themselves (they reach every depth and bring their children along)"""
     pats = [r for r in rules if r.pat != "~" and not r.ignore]
     rng.shuffle(pats)
     out = []
@@ -66,6 +67,8 @@ def gen_order(rng, rules, prefix, depth=0, many_globals=False, echo=False, scope
             continue
         if r.children and rng.random() < 0.8:
             o.children = gen_order(rng, r.children, prefix, depth + 1, many_globals, False, scoped)
+            if gblock is not None and o.children and gblock.random() < 0.6:
+                o.glob = True
         elif not r.children and rng.random() < 0.1:
             o.glob = True
         out.append(o)
@@ -194,7 +197,7 @@ def check_config_level(tree_before, tree_after, olevel, prefix, acc, w, path=())
     return True
 
 
-def make_case(seed, many_globals=False, echo=False, scoped=False):
+def make_case(seed, many_globals=False, echo=False, scoped=False, gblock=False):
     rng = random.Random(seed)
     vname = VENDORS[rng.randrange(len(VENDORS))]
     v, prefix, exitw, hw, fmt = c01.vendor_env(vname)
@@ -215,18 +218,20 @@ def make_case(seed, many_globals=False, echo=False, scoped=False):
                 for l_ in leaves[:3]:
                     if all(c.pat != l_.pat for c in b.children):
                         b.children.append(RB.Rule(l_.pat))
-    order = gen_order(rng, rules, prefix, 0, many_globals, echo, scoped)
+    order = gen_order(rng, rules, prefix, 0, many_globals, echo, scoped, random.Random(seed ^ 0x6B10) if gblock else None)
     old = G.gen_tree(rng, rules, fill=0.75)
     new = G.mutate_tree(rng, old, rules, rate=0.6) if rng.random() < 0.7 else G.gen_tree(rng, rules, fill=0.75)
     return vname, rules, order, old, new
 
 
-def check_case(seed, acc, many_globals=False, echo=False, scoped=False, tabs=False):
+def check_case(seed, acc, many_globals=False, echo=False, scoped=False, tabs=False, gblock=False):
     from annet.api import _diff_and_patch
     from annet.annlib.patching import Orderer
     from annet.annlib.rbparser.ordering import compile_ordering_text
     install_sort_hook()
-    vname, rules, order, old, new = make_case(seed, many_globals, echo, scoped)
+    vname, rules, order, old, new = make_case(seed, many_globals, echo, scoped, gblock)
+    if gblock and any(o.glob and o.children for o in order):
+        acc.count("cases_with_a_global_block_rule_that_has_nested_rules")
     if scoped:
         acc.count("scoped_rule_cases")
     if many_globals:
@@ -246,7 +251,7 @@ def check_case(seed, acc, many_globals=False, echo=False, scoped=False, tabs=Fal
             lines.append(ln)
         otext = "\n".join(lines)
         acc.count("ordering_lines_with_tab_before_params", sum(1 for ln in lines if "\t%" in ln))
-    w = {"seed": seed, "many_globals": many_globals, "echo": echo, "scoped": scoped, "tabs": tabs, "vendor": vname, "rulebook": rtext, "ordering": otext, "old": plain(old), "new": plain(new)}
+    w = {"seed": seed, "many_globals": many_globals, "echo": echo, "scoped": scoped, "tabs": tabs, "gblock": gblock, "vendor": vname, "rulebook": rtext, "ordering": otext, "old": plain(old), "new": plain(new)}
     try:
         rb = c01.compile_rb(rtext, vname)
         rb["ordering"] = compile_ordering_text(otext, vname)
@@ -543,7 +548,7 @@ def run_shard(spec, acc):
         elif w.get("meta"):
             run_meta({"tier": "thorough", "shard": 0, "nshards": 1, "only": w.get("sample")}, acc)
         else:
-            check_case(w["seed"], acc, many_globals=bool(w.get("many_globals")), echo=bool(w.get("echo")), scoped=bool(w.get("scoped")), tabs=bool(w.get("tabs")))
+            check_case(w["seed"], acc, many_globals=bool(w.get("many_globals")), echo=bool(w.get("echo")), scoped=bool(w.get("scoped")), tabs=bool(w.get("tabs")), gblock=bool(w.get("gblock")))
         return
     if spec["mode"] == "meta":
         return run_meta(spec, acc)
@@ -564,3 +569,5 @@ def run_shard(spec, acc):
             check_case(rng.randrange(1 << 48), acc, scoped=True)
         if j % 5 == 1:
             check_case(rng.randrange(1 << 48), acc, tabs=True, scoped=(j % 10 == 1))
+        if j % 5 == 4:
+            check_case(rng.randrange(1 << 48), acc, gblock=True)
